@@ -225,7 +225,7 @@ func anyMatch[T any](_ T, _ *chainhash.Hash) (bool, error) { return false, nil }
 // scanner: Enqueue from several goroutines during scans, Result, Stop
 func wlScanner(seed int64, budget int) {
 	genesis := chaincfg.SimNetParams.GenesisBlock
-	for round := 0; round < 150*budget; round++ {
+	for round := 0; round < 60*budget; round++ {
 		cfg := &neutrino.UtxoScannerConfig{
 			BestSnapshot: func() (*headerfs.BlockStamp, error) {
 				return &headerfs.BlockStamp{Height: 0, Hash: *chaincfg.SimNetParams.GenesisHash}, nil
@@ -252,7 +252,26 @@ func wlScanner(seed int64, budget int) {
 						cancel := make(chan struct{})
 						close(cancel)
 						_, _ = req.Result(cancel)
+						continue
 					}
+					// result fan-out: several goroutines wait on the same request while the scan delivers
+					// (the type supports it: the first reader caches the single delivery for the others)
+					cancel := make(chan struct{})
+					tm := time.AfterFunc(100*time.Millisecond, func() { close(cancel) })
+					var rg sync.WaitGroup
+					for k := 0; k < 3; k++ {
+						rg.Add(1)
+						go func(k int) {
+							defer rg.Done()
+							if k == 2 {
+								time.Sleep(200 * time.Microsecond) // a late reader
+							}
+							_, _ = req.Result(cancel)
+							_, _ = req.Result(cancel)
+						}(k)
+					}
+					rg.Wait()
+					tm.Stop()
 				}
 			}(g)
 		}
